@@ -5,7 +5,7 @@
      (gkndt from the propagated rho and the same W, threshold, hop_to_it); time += dt.
    It only wires together Hop.v, Propagate.v and Hopper.v in the order the code uses them. *)
 From Coq Require Import ZArith List Bool Arith.
-From MV Require Import Ops Vec Cplx Mat Poisson Hop Hopper Propagate Ehrenfest Cumulative Afssh.
+From MV Require Import Ops Vec Cplx Mat Poisson Hop Hopper Propagate Ehrenfest Cumulative Afssh SpawnStack.
 Import ListNotations.
 
 Section Traj.
@@ -282,3 +282,64 @@ Section RunR.
         let '(sf, atts) := run_rk4 n m dt maxdt start poisson ds' s1 in (sf, att :: atts)
     end.
 End RunR.
+
+Section RunAR.
+  Context {T : Type} (O : Ops T).
+  (* whole A-FSSH runs with rk4 moments: the per-pass record of run_af, its eigh answer for the previous propagator unused *)
+  Fixpoint run_af_rk4 (n : nat) (m : list T) (dt : T) (poisson : bool) (ds : list (adata (T:=T))) (s : astate (T:=T))
+    : astate (T:=T) * list (option (nat * bool) * bool) :=
+    match ds with
+    | [] => (s, [])
+    | d :: ds' =>
+        let '(s1, att, coll) := step_af_rk4 O n m dt poisson (azeta d) (aeprev d) (ae0 d) (ae1 d) (afm1 d) (alam d) (aC d) (aetas d) s in
+        let '(sf, evs) := run_af_rk4 n m dt poisson ds' s1 in (sf, (att, coll) :: evs)
+    end.
+End RunAR.
+
+
+(* ---- the even-sampling pass (even_sampling.py hopper 307-356, hop_to_it 358-387 inside the loop body of simulate) with a
+   non-empty spawn stack: the parent never hops; when the accumulated probability passes the current threshold the stack
+   index advances past every threshold below it and, for every other state in ascending order, spawn_size children are
+   cloned at the end point of the pass and sent through TrajectoryCum.hop_to_it (accepted or frustrated) ---- *)
+Section TrajES.
+  Context {T : Type} (O : Ops T).
+  Record estate := mkES { eb : tstate (T:=T); eacc : T; eiz : nat; est : list (node (T:=T)); ebase : T }.
+  (* SpawnStack.weight(): base_weight * marginal_weight *)
+  Definition es_weight (s : estate) : T := omul O (ebase s) (marginal O (est s) (eiz s)).
+  (* a child: its trajectory state, its own stack (the children of the node at the old index) and base weight *)
+  Definition es_child (n : nat) (m : list T) (dt : T) (e1 : elec (T:=T)) (x1 v1 : list T) (rho1 : mat (T:=T)) (a : nat) (t1 : T)
+             (st' : list (node (T:=T))) (w : T) (target : nat) : estate :=
+    let '(a', v2, _) := hop_to_it O m v1 a target (diagE O n e1) (tget (etau e1) a target) in
+    mkES (mkT x1 v2 rho1 a' t1) (o0 O) 0 st' w.
+  Definition step_es (n : nat) (m : list T) (dt : T) (e0 e1 : elec (T:=T)) (lam : list T) (Cm : mat (T:=T)) (s : estate)
+    : estate * list estate * T :=
+    let b := eb s in
+    let f0 := nth (pact b) (eforce e0) [] in
+    let x1 := advance_position O m (px b) (pv b) f0 dt in
+    let f1 := nth (pact b) (eforce e1) [] in
+    let v1 := advance_velocity O m (pv b) f0 f1 dt in
+    let W := Wmid O n (eH e0) (eH e1) (etau e0) (etau e1) v1 (pv b) in
+    let rho1 := exp_step O n lam Cm dt (prho b) in
+    let g := gkndt O (row O n rho1 (pact b)) (colm O n W (pact b)) (pact b) dt in
+    let G := vsum O g in
+    let a1 := accumulate_es O (eacc s) G in
+    let t1 := oadd O (ptime b) dt in
+    let b1 := mkT x1 v1 rho1 (pact b) t1 in
+    if oltb O (zeta_at O (est s) (eiz s)) a1 then
+      let iz' := next_index O (est s) (eiz s) a1 in
+      match nth_error (est s) (eiz s) with
+      | None => (mkES b1 a1 (eiz s) (est s) (ebase s), [], G)
+      | Some nd =>
+          let dw := sum_range O (dws (est s)) (eiz s) iz' in
+          let ns := nspawn nd in
+          let share := odiv O (o1 O) (ofnat O ns) in
+          let kids := flat_map (fun i =>
+                        if Nat.eqb i (pact b) then []
+                        else repeat (es_child n m dt e1 x1 v1 rho1 (pact b) t1 (nchildren nd)
+                                       (omul O (omul O (ebase s) dw) (omul O share (odiv O (vget O g i) G))) i) ns)
+                      (seq 0 n) in
+          (mkES b1 a1 iz' (est s) (ebase s), kids, G)
+      end
+    else (mkES b1 a1 (eiz s) (est s) (ebase s), [], G).
+End TrajES.
+
